@@ -5,7 +5,7 @@ T = "RsslVerif.Thm.C02."
 TS = "RsslVerif.Thm.C02Sem."
 SEM_THEOREMS = ["msl_exporter_shape_as_modelled", "msl_op_table_is_identity", "msl_literal_arms_same_as_hlsl", "msl_genLiteral_eq",
                 "gen_sem_expr", "gen_sem_expr_plain", "gen_sem_args", "gen_sem_stmt", "gen_sem_stmts", "gen_sem_func",
-                "trampoline_copy_semantics", "gen_sem_program_partial", "gen_sem_signatures",
+                "trampoline_copy_semantics", "gen_sem_program", "ir_frame", "gen_sem_signatures",
                 "int_min_literal_changes_meaning", "literal_arithmetic_changes_meaning", "inout_copy_in_order_changes_meaning"]
 
 POSITIONS = ["xs", "vi", "ai", "bl", "ic", "ib", "ec", "et", "ee", "fi", "fd", "fc", "fa", "fb", "wc", "wb", "db", "dc",
@@ -148,9 +148,9 @@ SPEC = {
                   "parameters, overloads by tag) equals the typed IR semantics of C01: gen_sem_expr, gen_sem_stmt(s), "
                   "gen_sem_func (body-carrying definition with statics reachable only through the reference parameters), "
                   "trampoline_copy_semantics (the emitted trampoline called with arbitrary, possibly aliasing, caller "
-                  "variables = copy-in, typed function, copy-out in parameter order) and gen_sem_program_partial (Metal call = "
-                  "typed copy-in/copy-out call at every depth; partial: three semantic assumptions about the typed "
-                  "functions are hypotheses). Outside the side conditions the statement is false on the current code: "
+                  "variables = copy-in, typed function, copy-out in parameter order) and gen_sem_program (Metal call = "
+                  "typed copy-in/copy-out call at every depth, under the semantic precondition that functions with out "
+                  "parameters do not depend on their entry value). Outside the side conditions the statement is false on the current code: "
                   "negations with witnesses (INT_MIN / literal arithmetic typed long/int in Metal; inout copy-in after "
                   "later arguments), both replayed on the real exporter as known findings.",
     "trusted_base": [
@@ -196,8 +196,9 @@ SPEC = {
         "semantic half, names and layout (AgreeM / AgreeL / AgreeT): emitted names denote the IR's entities and are pairwise "
         "distinct within a frame incl. the trampoline's __p and out (C15); locals sit at the IR's variable ids, the "
         "trampoline's copy __p at the id of parameter p, statics threaded as parameters are not in the frame",
-        "gen_sem_program_partial assumes of each typed function that gets a trampoline (SemOK): its result does not depend on "
-        "the entry value of an out parameter (the source writes it first); a void function returns no value; it does not "
-        "touch the trampoline's scratch slot",
+        "gen_sem_program assumes of each typed function that gets a trampoline (OutOK) that its result does not depend on "
+        "the entry value of an out parameter (the source writes it first: no definite-assignment analysis is formalised); "
+        "syntactically (SynOK) that no function mentions a trampoline's scratch slot and that a void function with a "
+        "trampoline has no `return e;`",
     ],
 }
